@@ -3,7 +3,7 @@ the messages the real app accepted, and compared with what the app lists after e
 
 
 def opk(rec):
-    (k, v), = rec["op"].items()
+    (k, v), = (rec["op"].items() if isinstance(rec["op"], dict) else [(rec["op"], {})])
     return k, v
 
 
